@@ -144,6 +144,11 @@ pub(crate) struct IoLoop {
     frame_buffer: FrameBuffer,
     inner: Inner,
 
+    // Frames read behind the server's Connection.OpenOk in the read pass that completed
+    // the handshake. They belong to the open connection and are processed when the main
+    // loop starts (the socket is edge-triggered, so nothing would wake us up for them).
+    frames_after_handshake: Vec<AMQPFrame>,
+
     // Bound for buffered outgoing writes. If we have more than this much data enqueued,
     // we will stop polling non-0 channels' requests for us to send more data.
     buffered_writes_high_water: usize,
@@ -167,6 +172,7 @@ impl IoLoop {
             poll,
             frame_buffer: FrameBuffer::new(),
             inner: Inner::new(heartbeats, tuning.mem_channel_bound),
+            frames_after_handshake: Vec::new(),
             buffered_writes_high_water: tuning.buffered_writes_high_water,
             buffered_writes_low_water: tuning.buffered_writes_low_water,
             connection_timeout: None,
@@ -378,10 +384,17 @@ impl IoLoop {
                     self.inner.write_to_stream(stream)?;
                 }
                 if event.readiness().is_readable() {
+                    let after_handshake = &mut self.frames_after_handshake;
                     self.inner.read_from_stream(
                         stream,
                         &mut self.frame_buffer,
-                        |inner, frame| state.process(inner, frame),
+                        |inner, frame| match state {
+                            HandshakeState::Done(_, _) => {
+                                after_handshake.push(frame);
+                                Ok(())
+                            }
+                            _ => state.process(inner, frame),
+                        },
                     )?;
                 }
             }
@@ -416,6 +429,9 @@ impl IoLoop {
         ch0_slot: Channel0Slot,
     ) -> Result<()> {
         let mut state = ConnectionState::Steady(ch0_slot);
+        for frame in std::mem::replace(&mut self.frames_after_handshake, Vec::new()) {
+            state.process(&mut self.inner, frame)?;
+        }
         self.run_io_loop(
             stream,
             &mut state,
